@@ -286,7 +286,7 @@ func VerifH_C03_slow_callbacks_no_close_cause() {
 		if c.sock == nil {
 			return
 		}
-		slow := func(...any) { verif.Settle() }
+		slow := func(...any) { verif.TakeTime() }
 		switch verif.Choose(3) {
 		case 1:
 			c.sock.On("drain", slow)
@@ -296,7 +296,7 @@ func VerifH_C03_slow_callbacks_no_close_cause() {
 		for step := 0; step < 3; step++ {
 			switch verif.Choose(3) {
 			case 0:
-				c.sock.Send(types.NewStringBufferString("m"), nil, func(transports.Transport) { verif.Settle() })
+				c.sock.Send(types.NewStringBufferString("m"), nil, func(transports.Transport) { verif.TakeTime() })
 			case 1:
 				c.poll()
 			case 2:
